@@ -329,6 +329,10 @@ def ident(rep, n, hist, Q, res, case, ref_trunc):
 
 
 def work(task):
+    if task[0] in ("cat", "sub"):
+        from mc.checks import c16b
+
+        return c16b.work(task)
     n, hists, reps = task
     res = Res()
     for hist in hists:
@@ -358,6 +362,11 @@ def run(ctx):
     h1 = histories(1, 3)
     states += len(h1)
     tasks.append((1, h1, ("gaussian", "bosonic", "fock")))
+    from mc.checks import c16b
+
+    extra = c16b.tasks(quick)
+    tasks = extra + tasks
+    ctx.cov["second_part"] = {"cat_state_cases": sum(len(t[1]) for t in extra if t[0] == "cat"), "substate_cases": sum(len(t[1]) for t in extra if t[0] == "sub")}
     for r in ctx.pmap(work, tasks):
         ctx.add(r)
         if ctx.time_left() < 0:
@@ -373,6 +382,10 @@ def run(ctx):
 
 def replay(case):
     res = Res()
+    if "part" in case:
+        from mc.checks import c16b
+
+        return c16b.replay(case)
     hist = tuple((l, tuple(m)) for l, m in case["hist"])
     check_state(case["n"], hist, (case["rep"],), res)
     return [(s, w) for s, w, c in res.viol if c.get("key") == case.get("key")]
